@@ -450,6 +450,7 @@ def check_case(case, obs, rep):
 def tags_of(case, obs):
     t = ["kind-" + case["kind"], "mode-" + case["mode"], "dom-" + str(int(obs["dom"])),
          "incl-" + case["incl"]["type"], "excl-" + case["excl"]["type"],
+         f"celltypes={len(case['lm_s']['cells'])}" if "lm_s" in case else "celltypes=0",
          f"ns={min(len(obs['src']), 9)}", f"nr={min(len(obs['ref']), 9)}", "verdict-" + str(int(obs["verdict"]))]
     if len(set(obs["src"])) < len(obs["src"]) or len(set(obs["ref"])) < len(obs["ref"]):
         t.append("duplicates")
@@ -609,8 +610,15 @@ def run(ctx):
         if sig in [(len(m["points"]), tuple((t, len(r)) for t, r in m["cells"])) for m in meshes]:
             continue
         meshes.append(lm)
+    # hand-made meshes with three cell types (quad + triangle + line), two sizes
+    meshes.append({"dim": 2, "points": [[0.0, 0.0], [1.0, 0.0], [1.0, 1.0], [0.0, 1.0], [2.0, 0.5], [3.0, 0.5]],
+                   "cells": [["QUAD", [[0, 1, 2, 3]]], ["TRIANGLE", [[1, 4, 2]]], ["LINE", [[4, 5]]]], "pf": [], "cf": []})
+    meshes.append({"dim": 3, "points": [[0.0, 0.0, 0.0], [1.0, 0.0, 0.0], [1.0, 1.0, 0.0], [0.0, 1.0, 0.0], [2.0, 0.5, 0.0],
+                                        [3.0, 0.5, 1.0], [2.0, 1.5, 0.0]],
+                   "cells": [["LINE", [[4, 5], [5, 6]]], ["QUAD", [[0, 1, 2, 3]]], ["TRIANGLE", [[1, 4, 2], [4, 6, 2]]]],
+                   "pf": [], "cf": []})
     finite_tables(ctx)
-    n = ctx.scale(5000, 300000)
+    n = ctx.scale(14000, 300000)
     CH = 2500
     done = 0
     while done < n:
